@@ -78,7 +78,7 @@ def tlc_stats(out):
     return int(m.group(1)), int(m.group(2))
 
 
-def run_generator(model, workdir, timeout=1800, workers=1):
+def run_generator(model, workdir, timeout=1800, workers=8):
     """TLC enumerates a bounded model; returns (edges_path, stats)."""
     stage_spec(workdir)
     shutil.copyfile(os.path.join(MODELS, model + ".cfg"), os.path.join(workdir, model + ".cfg"))
